@@ -8,10 +8,17 @@
 // timestamp from one atomic counter; the history, extended by three sequential
 // read-backs (live store, scan of the .dat file, store reopened from disk), is
 // checked with porcupine against a per-key register model.
+//
+// Besides 4 ordinary payloads of pairwise distinct lengths every key has a
+// group of 3 "checksum twins": distinct payloads of one length whose needle
+// checksum (CRC32-C as needle.NewCRC computes it) is equal. The model tells
+// payloads apart by content only, so an overwrite of a live twin with another
+// member of its group must be stored like any other overwrite.
 package c38
 
 import (
 	"bytes"
+	"encoding/binary"
 	"fmt"
 	"os"
 	"runtime"
@@ -34,8 +41,8 @@ import (
 )
 
 func TestMain(m *testing.M) {
-	vlib.Rule("C38: a generated program = optional sequential prelude, then 2-6 goroutines x 3-10 operations over 3 keys started together: write(key, one of 4 payloads per key with pairwise distinct lengths 1B-64KB, right cookie or (10%) a wrong one, immediate or batched fsync path), delete(key), read(key), optional Gosched between operations; in ~40% of the programs a further goroutine runs 1-2 CompactVolume+CommitCompactVolume rounds; needle map kind in-memory (75%) or LevelDB. The recorded history plus three final sequential read-backs (live store, .dat scan, reopened store) is checked per key with porcupine. Non-trivial = two different goroutines touch the same key, one with a (right-cookie) write and one with a delete. The goroutine interleaving is owned by the Go scheduler: this is stress, not schedule enumeration; cases are distinct by program text, a failing schedule is not replayable and therefore the complete history is printed on failure.")
-	vlib.Assume("C38: sequential specification per key: a write with the stored cookie (or to a never written key) succeeds and reports 'unchanged' exactly when cookie and payload equal the live blob; a write with another cookie fails while the blob is live and may go either way after a delete (the statement does not decide it); delete returns the stored size of the live blob or 0; read returns the live blob and its cookie, or not-found/deleted. Compaction is a no-op of the model. Payloads are never empty (empty blobs have their own listed findings under C01).")
+	vlib.Rule("C38: a generated program = optional sequential prelude, then 2-6 goroutines x 3-10 operations over 3 keys started together: write(key, one of 4 ordinary payloads per key with pairwise distinct lengths 1B-64KB or (10/25/25/60% of the writes, drawn per program) one of the key's 3 checksum twins = distinct payloads of one length (12B-64KB, drawn per key) with equal needle checksum CRC32-C, found once per process by a deterministic birthday search over counter-made 12-byte strings and extended by a common prefix; all uploads carry the same (empty) name/mime/pairs and no TTL, so a twin written over a live twin differs from the stored blob in content only; right cookie or (10%) a wrong one, immediate or batched fsync path), delete(key), read(key), optional Gosched between operations; in ~40% of the programs a further goroutine runs 1-2 CompactVolume+CommitCompactVolume rounds; needle map kind in-memory (75%) or LevelDB. The recorded history plus three final sequential read-backs (live store, .dat scan, reopened store) is checked per key with porcupine. Non-trivial = two different goroutines touch the same key, one with a (right-cookie) write and one with a delete. Class overwrite-with-checksum-twin = the history contains a completed right-cookie twin upload answered 'stored' that began after another completed right-cookie twin upload of the key, with no delete and no other kind of upload of that key anywhere in between (so it replaced a live blob of equal length, cookie and checksum). TestPropChecksumTwinSequentialExhaustive runs the same runner and oracle on sequential programs (no goroutines): for every ordered pair of twins, both needle map kinds and all 4 combinations of immediate/batched path: upload A, upload twin B, read, upload B again (must be 'unchanged'), read, rotating the pairs over the 3 keys; those cases count as non-trivial when the class above was observed. The goroutine interleaving is owned by the Go scheduler: this is stress, not schedule enumeration; cases are distinct by program text, a failing schedule is not replayable and therefore the complete history is printed on failure.")
+	vlib.Assume("C38: sequential specification per key: a write with the stored cookie (or to a never written key) succeeds and reports 'unchanged' exactly when cookie and payload bytes equal the live blob (payloads are identified by content, never by length or checksum); a write with another cookie fails while the blob is live and may go either way after a delete (the statement does not decide it); delete returns the stored size of the live blob or 0; read returns the live blob and its cookie, or not-found/deleted. Compaction is a no-op of the model. Payloads are never empty (empty blobs have their own listed findings under C01).")
 	quietGlog()
 	vlib.Main(m)
 }
@@ -60,6 +67,10 @@ const (
 const (
 	nKeys       = 3
 	valsPerKey  = 4
+	twinsPerKey = 3                  // checksum twins per key (value indices twinBase...)
+	twinBase    = nKeys * valsPerKey // first value index of the twins
+	nVals       = twinBase + nKeys*twinsPerKey
+	twinLen     = 12 // length of the strings the birthday search runs over
 	rightCookie = uint32(0x1234abcd)
 	wrongCookie = uint32(0x0badc0de)
 	vid         = needle.VolumeId(7)
@@ -86,16 +97,27 @@ func (o op) String() string {
 		if o.fsync {
 			f = ",batched"
 		}
-		return fmt.Sprintf("W(k%d,p%d%s%s)", o.key, o.val, c, f)
+		return fmt.Sprintf("W(k%d,%s%s%s)", o.key, valName(o.val), c, f)
 	case opDelete:
 		return fmt.Sprintf("D(k%d)", o.key)
 	}
 	return fmt.Sprintf("R(k%d)", o.key)
 }
 
+// valName: p<i> is an ordinary payload, t<j> the j-th checksum twin of the key.
+func valName(v int) string {
+	if v >= twinBase {
+		return fmt.Sprintf("t%d", (v-twinBase)%twinsPerKey)
+	}
+	return fmt.Sprintf("p%d", v)
+}
+
+func isTwin(v int) bool { return v >= twinBase }
+
 type program struct {
 	kind     storage.NeedleMapKind
-	sizes    []int // payload length per value index (pairwise distinct)
+	sizes    []int // payload length per value index (pairwise distinct, except that the twins of a key share one length)
+	twinPct  int   // percentage of the writes that upload a checksum twin
 	prelude  []op
 	threads  [][]op
 	compacts int // compaction rounds in an extra goroutine (0 = none)
@@ -103,7 +125,7 @@ type program struct {
 
 func (p *program) String() string {
 	var b strings.Builder
-	fmt.Fprintf(&b, "nm=%d sizes=%v", p.kind, p.sizes)
+	fmt.Fprintf(&b, "nm=%d sizes=%v twinsizes=%v", p.kind, p.sizes[:twinBase], p.twinSizes())
 	if len(p.prelude) > 0 {
 		fmt.Fprintf(&b, " prelude:%v", p.prelude)
 	}
@@ -116,7 +138,18 @@ func (p *program) String() string {
 	return b.String()
 }
 
+func (p *program) twinSizes() []int {
+	var s []int
+	for k := 0; k < nKeys; k++ {
+		s = append(s, p.sizes[twinBase+k*twinsPerKey])
+	}
+	return s
+}
+
 func payload(val, size int) []byte {
+	if isTwin(val) {
+		return twinPayload((val-twinBase)/twinsPerKey, (val-twinBase)%twinsPerKey, size)
+	}
 	b := make([]byte, size)
 	for i := range b {
 		b[i] = byte(val*37 + i*7 + i>>8)
@@ -124,12 +157,134 @@ func payload(val, size int) []byte {
 	return b
 }
 
-func genOp(t *rapid.T, label string, batchedOK bool) op {
+// ------------------------------------------------------------------ checksum twins
+
+var (
+	twinOnce  sync.Once
+	twinGroup [4][]byte // 4 distinct strings of twinLen bytes with one needle checksum
+	twinErr   string
+)
+
+// twinCandidate is the i-th string of the deterministic search.
+func twinCandidate(i uint64) []byte {
+	b := []byte("c38:________")
+	binary.BigEndian.PutUint64(b[4:], i*0x9e3779b97f4a7c15)
+	return b
+}
+
+func xor(a, b []byte) []byte {
+	c := make([]byte, len(a))
+	for i := range a {
+		c[i] = a[i] ^ b[i]
+	}
+	return c
+}
+
+// sameChecksum: what isFileUnchanged compares (needle.CRC) and what is stored in the .dat file (CRC.Value()).
+func sameChecksum(a, b []byte) bool {
+	ca, cb := needle.NewCRC(a), needle.NewCRC(b)
+	return ca == cb && ca.Value() == cb.Value()
+}
+
+// twins finds, once per process and without any randomness, two pairs of equal
+// length strings with equal needle checksum by enumerating counter-made strings
+// (birthday search, ~10^5 candidates). CRC32 is affine over GF(2): with A~B and
+// C~D of one length, A, A^(A^B), A^(C^D), A^(A^B)^(C^D) all have one checksum,
+// and so have X+A', X+B' for any common prefix X. Every derived payload is
+// re-checked with needle.NewCRC before use (checkTwins), nothing is assumed.
+func twins() ([4][]byte, string) {
+	twinOnce.Do(func() {
+		seen := map[uint32]uint64{}
+		var base []byte
+		var deltas [][]byte
+		for i := uint64(1); i < 20000000 && len(deltas) < 2; i++ {
+			c := needle.NewCRC(twinCandidate(i)).Value()
+			j, ok := seen[c]
+			if !ok {
+				seen[c] = i
+				continue
+			}
+			a, b := twinCandidate(j), twinCandidate(i)
+			d := xor(a, b)
+			if bytes.Equal(a, b) || len(deltas) == 1 && bytes.Equal(d, deltas[0]) {
+				continue
+			}
+			if base == nil {
+				base = a
+			}
+			deltas = append(deltas, d)
+		}
+		if len(deltas) < 2 {
+			twinErr = "the deterministic search found no two pairs of 12-byte strings with equal needle checksum"
+			return
+		}
+		twinGroup = [4][]byte{base, xor(base, deltas[0]), xor(base, deltas[1]), xor(xor(base, deltas[0]), deltas[1])}
+		for i := range twinGroup {
+			for j := 0; j < i; j++ {
+				if bytes.Equal(twinGroup[i], twinGroup[j]) || len(twinGroup[i]) != twinLen || !sameChecksum(twinGroup[i], twinGroup[j]) {
+					twinErr = fmt.Sprintf("derived strings %x and %x are not distinct checksum twins", twinGroup[j], twinGroup[i])
+				}
+			}
+		}
+	})
+	return twinGroup, twinErr
+}
+
+// twinPayload is twin j of key k at the given length (>= twinLen): a prefix that
+// depends on the key only, then the j-th string of the group.
+func twinPayload(k, j, size int) []byte {
+	g, _ := twins()
+	b := make([]byte, size)
+	for i := 0; i < size-twinLen; i++ {
+		b[i] = byte(k*53 + i*11 + i>>8 + 1)
+	}
+	copy(b[size-twinLen:], g[j])
+	return b
+}
+
+// checkTwins re-checks for the payload table of one program that the twins of
+// every key are pairwise distinct, of one length and of one needle checksum,
+// and that no ordinary payload has the length of a twin.
+func (p *program) checkTwins() string {
+	if _, e := twins(); e != "" {
+		return e
+	}
+	if len(p.sizes) != nVals {
+		return fmt.Sprintf("payload table has %d entries, want %d", len(p.sizes), nVals)
+	}
+	for k := 0; k < nKeys; k++ {
+		v0 := twinBase + k*twinsPerKey
+		for v := 0; v < nVals; v++ {
+			if (v < v0 || v >= v0+twinsPerKey) && p.sizes[v] == p.sizes[v0] {
+				return fmt.Sprintf("payload %d has the length of the twins of k%d", v, k)
+			}
+		}
+		a := payload(v0, p.sizes[v0])
+		for j := 1; j < twinsPerKey; j++ {
+			b := payload(v0+j, p.sizes[v0+j])
+			if len(a) != len(b) || bytes.Equal(a, b) || !sameChecksum(a, b) {
+				return fmt.Sprintf("twins t0 and t%d of k%d (%d and %d bytes) are not distinct payloads of one length and one checksum", j, k, len(a), len(b))
+			}
+			for i := 1; i < j; i++ {
+				if bytes.Equal(payload(v0+i, p.sizes[v0+i]), b) {
+					return fmt.Sprintf("twins t%d and t%d of k%d are equal", i, j, k)
+				}
+			}
+		}
+	}
+	return ""
+}
+
+func genOp(t *rapid.T, label string, batchedOK bool, twinPct int) op {
 	o := op{key: rapid.IntRange(0, nKeys-1).Draw(t, label+".key")}
 	switch rapid.IntRange(0, 9).Draw(t, label+".kind") {
 	case 0, 1, 2, 3, 4:
 		o.kind = opWrite
-		o.val = o.key*valsPerKey + rapid.IntRange(0, valsPerKey-1).Draw(t, label+".val")
+		if rapid.IntRange(0, 99).Draw(t, label+".twin") < twinPct {
+			o.val = twinBase + o.key*twinsPerKey + rapid.IntRange(0, twinsPerKey-1).Draw(t, label+".twinval")
+		} else {
+			o.val = o.key*valsPerKey + rapid.IntRange(0, valsPerKey-1).Draw(t, label+".val")
+		}
 		o.cookie = rightCookie
 		if rapid.IntRange(0, 9).Draw(t, label+".wrongcookie") == 0 {
 			o.cookie = wrongCookie
@@ -164,14 +319,31 @@ func genProgram(t *rapid.T) *program {
 		used[s] = true
 		p.sizes = append(p.sizes, s)
 	}
+	// the checksum twins of a key share one length, distinct from every other length
+	for k := 0; k < nKeys; k++ {
+		var s int
+		if rapid.IntRange(0, 4).Draw(t, fmt.Sprintf("twin%d.large", k)) == 0 {
+			s = rapid.IntRange(4096, 65536).Draw(t, fmt.Sprintf("twin%d.size", k))
+		} else {
+			s = rapid.IntRange(twinLen, 300).Draw(t, fmt.Sprintf("twin%d.size", k))
+		}
+		for used[s] {
+			s++
+		}
+		used[s] = true
+		for j := 0; j < twinsPerKey; j++ {
+			p.sizes = append(p.sizes, s)
+		}
+	}
+	p.twinPct = rapid.SampledFrom([]int{10, 25, 25, 60}).Draw(t, "twinpct")
 	for i, n := 0, rapid.IntRange(0, 4).Draw(t, "prelude"); i < n; i++ {
-		p.prelude = append(p.prelude, genOp(t, fmt.Sprintf("pre%d", i), true))
+		p.prelude = append(p.prelude, genOp(t, fmt.Sprintf("pre%d", i), true, p.twinPct))
 	}
 	g := rapid.IntRange(2, 6).Draw(t, "goroutines")
 	for i := 0; i < g; i++ {
 		var th []op
 		for j, n := 0, rapid.IntRange(3, 10).Draw(t, fmt.Sprintf("g%d.ops", i)); j < n; j++ {
-			th = append(th, genOp(t, fmt.Sprintf("g%d.%d", i, j), true))
+			th = append(th, genOp(t, fmt.Sprintf("g%d.%d", i, j), true, p.twinPct))
 		}
 		p.threads = append(p.threads, th)
 	}
@@ -234,7 +406,7 @@ type regState struct {
 func describeState(s regState) string {
 	switch {
 	case s.live:
-		return fmt.Sprintf("live(p%d,c=%08x)", s.val, s.cookie)
+		return fmt.Sprintf("live(%s,c=%08x)", valName(s.val), s.cookie)
 	case s.deleted:
 		return fmt.Sprintf("deleted(c=%08x)", s.cookie)
 	}
@@ -347,6 +519,14 @@ func (r *runner) note(s string) {
 	r.mu.Unlock()
 }
 
+func readName(v int) string {
+	if v < 0 {
+		return "p-1"
+	}
+	return valName(v)
+}
+
+// valOf identifies a returned blob by its bytes (twins have one length and one checksum).
 func (r *runner) valOf(data []byte) int {
 	for v, s := range r.p.sizes {
 		if len(data) == s && bytes.Equal(data, payload(v, s)) {
@@ -407,7 +587,7 @@ func (r *runner) exec(client int, o op, src string) (x rec, problem string) {
 			problem = fmt.Sprintf("%s failed with an error no sequential execution returns: %v", o, err)
 		default:
 			v := r.valOf(n.Data)
-			x.out = kvOut{found: true, val: v, cookie: uint32(n.Cookie), text: fmt.Sprintf("p%d,c=%08x", v, uint32(n.Cookie))}
+			x.out = kvOut{found: true, val: v, cookie: uint32(n.Cookie), text: fmt.Sprintf("%s,c=%08x", readName(v), uint32(n.Cookie))}
 			if v < 0 || count != len(n.Data) {
 				x.out.text = fmt.Sprintf("%d bytes (count %d) that are none of the payloads", len(n.Data), count)
 				problem = fmt.Sprintf("%s returned %s", o, x.out.text)
@@ -494,6 +674,9 @@ func sizeAssumption() string {
 func run(t failer, p *program) (classes []string) {
 	if e := sizeAssumption(); e != "" {
 		t.Fatalf("INCONCLUSIVE harness assumption: %s", e)
+	}
+	if e := p.checkTwins(); e != "" {
+		t.Fatalf("INCONCLUSIVE harness assumption (checksum twins): %s", e)
 	}
 	r := &runner{t: t, p: p, dir: vlib.TempDir()}
 	defer os.RemoveAll(r.dir)
@@ -600,7 +783,7 @@ func run(t failer, p *program) (classes []string) {
 		x := rec{client: final, in: kvIn{kind: opRead, key: k}, src: "dat-scan", call: r.tick()}
 		if n := sc.last[keyIds[k]]; n != nil && len(n.Data) > 0 {
 			v := r.valOf(n.Data)
-			x.out = kvOut{found: true, val: v, cookie: uint32(n.Cookie), text: fmt.Sprintf("p%d,c=%08x", v, uint32(n.Cookie))}
+			x.out = kvOut{found: true, val: v, cookie: uint32(n.Cookie), text: fmt.Sprintf("%s,c=%08x", readName(v), uint32(n.Cookie))}
 			if v < 0 {
 				x.out.text = fmt.Sprintf("%d bytes that are none of the payloads", len(n.Data))
 			}
@@ -671,6 +854,9 @@ func run(t failer, p *program) (classes []string) {
 	if p.kind != storage.NeedleMapInMemory {
 		classes = append(classes, "leveldb")
 	}
+	if twinOverwriteObserved(r.hist) {
+		classes = append(classes, "overwrite-with-checksum-twin")
+	}
 	seen := map[string]bool{}
 	for _, x := range r.hist {
 		var c string
@@ -692,6 +878,41 @@ func run(t failer, p *program) (classes []string) {
 	return classes
 }
 
+// twinOverwriteObserved: some completed right-cookie twin upload W2 answered
+// "stored" began after another completed right-cookie twin upload W1 of the same
+// key had returned, and no delete and no other kind of upload of that key
+// overlaps [W1.call, W2.return]: W2 replaced a live blob that differs from it in
+// content only (same length, cookie, checksum and metadata).
+func twinOverwriteObserved(hist []rec) bool {
+	twinW := func(x rec) bool {
+		return x.in.kind == opWrite && isTwin(x.in.val) && x.in.cookie == rightCookie && !x.out.err
+	}
+	for _, w2 := range hist {
+		if !twinW(w2) || w2.out.unchanged {
+			continue
+		}
+		for _, w1 := range hist {
+			if !twinW(w1) || w1.in.key != w2.in.key || w1.ret >= w2.call {
+				continue
+			}
+			clean := true
+			for _, x := range hist {
+				if x.in.key != w2.in.key || x.in.kind == opRead || twinW(x) {
+					continue
+				}
+				if x.call < w2.ret && w1.call < x.ret {
+					clean = false
+					break
+				}
+			}
+			if clean {
+				return true
+			}
+		}
+	}
+	return false
+}
+
 func linearizableCase(t *rapid.T) {
 	p := genProgram(t)
 	classes := run(t, p)
@@ -700,4 +921,66 @@ func linearizableCase(t *rapid.T) {
 
 func TestPropLinearizable(t *testing.T) {
 	vlib.Check(t, 600, 8000, linearizableCase)
+}
+
+// TestPropChecksumTwinSequentialExhaustive: the sequential corner of the
+// property with the same runner and oracle. For every ordered pair (A,B) of the
+// 3 twins of a key, both needle map kinds and the 4 combinations of immediate /
+// batched path: upload A, upload B (must be stored), read (must return B's
+// bytes), upload B again (must be "unchanged"), read; the three keys take the
+// pairs in rotation. The final read-backs, the .dat scan and the reopened store
+// must show B as well.
+func TestPropChecksumTwinSequentialExhaustive(t *testing.T) {
+	type pair struct{ a, b int }
+	var pairs []pair
+	for a := 0; a < twinsPerKey; a++ {
+		for b := 0; b < twinsPerKey; b++ {
+			if a != b {
+				pairs = append(pairs, pair{a, b})
+			}
+		}
+	}
+	pads := []int{0, 1, 29, 288, 4096 - twinLen, 65536 - twinLen}
+	idx, all := 0, true
+	for _, kind := range []storage.NeedleMapKind{storage.NeedleMapInMemory, storage.NeedleMapLevelDb} {
+		for combo := 0; combo < 4; combo++ {
+			for pi := range pairs {
+				idx++
+				if !vlib.ShardOwns(idx) {
+					continue
+				}
+				p := &program{kind: kind}
+				for v := 0; v < twinBase; v++ {
+					p.sizes = append(p.sizes, 100000+v) // ordinary payloads are not used here
+				}
+				for k := 0; k < nKeys; k++ {
+					for j := 0; j < twinsPerKey; j++ {
+						p.sizes = append(p.sizes, twinLen+pads[(idx+2*k)%len(pads)])
+					}
+				}
+				for k := 0; k < nKeys; k++ {
+					pr := pairs[(pi+k)%len(pairs)]
+					c := (combo + k) % 4
+					va, vb := twinBase+k*twinsPerKey+pr.a, twinBase+k*twinsPerKey+pr.b
+					p.prelude = append(p.prelude,
+						op{kind: opWrite, key: k, val: va, cookie: rightCookie, fsync: c&1 != 0},
+						op{kind: opWrite, key: k, val: vb, cookie: rightCookie, fsync: c&2 != 0},
+						op{kind: opRead, key: k},
+						op{kind: opWrite, key: k, val: vb, cookie: rightCookie, fsync: c&1 != 0},
+						op{kind: opRead, key: k})
+				}
+				classes := run(t, p)
+				observed := false
+				for i, c := range classes {
+					if c == "program" {
+						classes[i] = "sequential-twin-program"
+					}
+					observed = observed || c == "overwrite-with-checksum-twin"
+				}
+				all = all && observed
+				vlib.Case("sequential "+p.String(), observed, classes...)
+			}
+		}
+	}
+	vlib.Exhaustive("checksum-twin-overwrite-sequential(pairs x needle map kinds x write paths)", all)
 }
